@@ -50,11 +50,14 @@ type Case struct {
 	// session has finished its script - so that they overlap the modifications for
 	// certain instead of finishing on an empty RIB before the first operation.
 	Loop bool `json:"loop,omitempty"`
+	// Net: the server sits behind a real grpc.Server over bufconn; sessions, readers and
+	// flushers are real gRPC clients (each session on its own connection)
+	Net bool `json:"net,omitempty"`
 }
 
 func setup() {
 	c := ev.C()
-	c.Rule = "concurrent workloads built with -race: 2-4 Modify sessions (negotiated one after the other, then run from real goroutines: ascending election ids from per-session disjoint sets with deliberate ties across sessions, batches over per-session disjoint keys with globally unique operation ids), 0-2 Get readers and 0-2 Flush callers running concurrently over in-process streams, GOMAXPROCS drawn from {2,4,16}, Gosched/microsleep perturbation at drawn points; plus election storms: 20-60 rounds in which 2-4 sessions announce distinct ids at the same moment (spin barrier), checked after every round. Oracle: no race-detector report (GORACE log parsed by the driver; signature = the racing gribigo functions), no panic/fatal error (process death is reported by the driver), every goroutine finishes under the watchdog (hang attributed from the goroutine dump), and at quiescence: learnt election id == maximum announced, primary is a session that announced it, every operation has exactly one terminal result, and - when no Flush overlapped - Get(ALL) equals the union of the per-session folds of acknowledged operations. Non-trivial = >=2 sessions announced while the others were still running and >=1 Get or Flush overlapped a Modify (measured with step counters); distinct by FNV-64 of the case JSON."
+	c.Rule = "concurrent workloads built with -race: 2-4 Modify sessions (negotiated one after the other, then run from real goroutines: ascending election ids from per-session disjoint sets with deliberate ties across sessions, batches over per-session disjoint keys with globally unique operation ids), 0-2 Get readers and 0-2 Flush callers running concurrently over in-process streams (one random workload in four over a real grpc.Server on bufconn), GOMAXPROCS drawn from {2,4,16}, Gosched/microsleep perturbation at drawn points; plus election storms: 20-60 rounds in which 2-4 sessions announce distinct ids at the same moment (spin barrier), checked after every round. Oracle: no race-detector report (GORACE log parsed by the driver; signature = the racing gribigo functions), no panic/fatal error (process death is reported by the driver), every goroutine finishes under the watchdog (hang attributed from the goroutine dump), and at quiescence: learnt election id == maximum announced, primary is a session that announced it, every operation has exactly one terminal result, and - when no Flush overlapped - Get(ALL) equals the union of the per-session folds of acknowledged operations. Non-trivial = >=2 sessions announced while the others were still running and >=1 Get or Flush overlapped a Modify (measured with step counters); distinct by FNV-64 of the case JSON."
 	c.Assumptions = []string{"the Go scheduler owns the interleaving: evidence is the race detector's happens-before analysis on the executions seen, not coverage of all schedules"}
 }
 
@@ -62,6 +65,7 @@ type sessResult struct {
 	announced []gen.ID128
 	acked     []*gen.Op // acknowledged RIB_PROGRAMMED, in order
 	results   map[uint64][]spb.AFTResult_Status
+	where     map[uint64][]string // for every result: "step/response" in which it arrived
 	sent      map[uint64]*gen.Op
 	ended     bool
 	err       error
@@ -87,6 +91,11 @@ func runCase(c Case) *ev.Verdict {
 		defer runtime.GOMAXPROCS(runtime.GOMAXPROCS(c.Procs))
 	}
 	s := drive.NewSrv(true, hgen.NIs[1:])
+	if c.Net {
+		s.UseNet()
+		defer s.Shutdown()
+		v.Class("real-transport")
+	}
 	n := len(c.Sessions)
 	xs := make([]*drive.Session, n)
 	// negotiate sequentially (an un-negotiated peer makes the server refuse other sessions' parameters)
@@ -117,7 +126,7 @@ func runCase(c Case) *ev.Verdict {
 	var mu sync.Mutex
 	start := make(chan struct{})
 	for i := range xs {
-		res[i] = &sessResult{results: map[uint64][]spb.AFTResult_Status{}, sent: map[uint64]*gen.Op{}}
+		res[i] = &sessResult{results: map[uint64][]spb.AFTResult_Status{}, where: map[uint64][]string{}, sent: map[uint64]*gen.Op{}}
 		wg.Add(1)
 		swg.Add(1)
 		go func(i int) {
@@ -133,7 +142,7 @@ func runCase(c Case) *ev.Verdict {
 				mu.Unlock()
 			}()
 			x, r := xs[i], res[i]
-			for _, a := range c.Sessions[i] {
+			for ai, a := range c.Sessions[i] {
 				perturb(a.Yield)
 				var req *spb.ModifyRequest
 				switch a.K {
@@ -173,9 +182,10 @@ func runCase(c Case) *ev.Verdict {
 				if a.K == "elec" {
 					r.announced = append(r.announced, *a.ID)
 				}
-				for _, m := range rs {
+				for mi, m := range rs {
 					for _, ar := range m.GetResult() {
 						r.results[ar.GetId()] = append(r.results[ar.GetId()], ar.GetStatus())
+						r.where[ar.GetId()] = append(r.where[ar.GetId()], fmt.Sprintf("step %d response %d of %d", ai, mi, len(rs)))
 						if ar.GetStatus() == spb.AFTResult_RIB_PROGRAMMED {
 							if o, ok := r.sent[ar.GetId()]; ok {
 								r.acked = append(r.acked, o)
@@ -365,7 +375,7 @@ func runCase(c Case) *ev.Verdict {
 				bad = fmt.Sprint(seq)
 			}
 			if bad != "" {
-				v.Fail("C11/result-sequence", "session %d operation %d received %s", i, oid, bad)
+				v.Fail("C11/result-sequence", "session %d operation %d (%s) received %s at %v", i, oid, r.sent[oid], bad, r.where[oid])
 			}
 		}
 	}
@@ -505,7 +515,11 @@ func TestReplay(t *testing.T) {
 	}
 }
 
-func drawCase(rt *rapid.T) Case { return drawCaseN(rt, 2, 8, 3) }
+func drawCase(rt *rapid.T) Case {
+	c := drawCaseN(rt, 2, 8, 3)
+	c.Net = rapid.IntRange(0, 3).Draw(rt, "net?") == 0
+	return c
+}
 
 // drawChurn draws a long workload in which Get readers and Flush callers loop
 // for as long as the sessions modify: chains (next-hop <- group <- prefixes in
